@@ -162,9 +162,7 @@ pub fn call_entry(name: &str, cfg: &Value, script: &ScriptJ) -> CallRecord {
         let extra = extra_of(cfg);
         return run_call_json(script, m, || {
             match query_with_timeout_and_extra_settings(game, &ip, port_opt, t, extra) {
-                Ok(r) => {
-                    Ok(json!({"original": serde_json::to_value(r.as_original()).unwrap(), "common": serde_json::to_value(r.as_json()).unwrap()}))
-                }
+                Ok(r) => Ok(view_json(r.as_ref())),
                 Err(e) => Err(format!("{:?}", e.kind)),
             }
         });
@@ -245,4 +243,26 @@ pub fn family_of(name: &str) -> &'static str {
         "master::query" | "master::query_specific" => "master",
         n => panic!("family of {n}"),
     }
+}
+
+
+/// original (as_original), common (as_json) and the value of every accessor called directly
+pub fn view_json(r: &dyn gamedig::protocols::types::CommonResponse) -> Value {
+    let players = r.players().map(|ps| {
+        ps.iter()
+            .map(|p| {
+                json!({"name": p.name(), "score": p.score(), "as_json": serde_json::to_value(p.as_json()).unwrap(),
+                       "as_original": serde_json::to_value(p.as_original()).unwrap()})
+            })
+            .collect::<Vec<_>>()
+    });
+    json!({
+        "original": serde_json::to_value(r.as_original()).unwrap(),
+        "common": serde_json::to_value(r.as_json()).unwrap(),
+        "accessors": {
+            "name": r.name(), "description": r.description(), "game_mode": r.game_mode(), "game_version": r.game_version(),
+            "map": r.map(), "players_maximum": r.players_maximum(), "players_online": r.players_online(),
+            "players_bots": r.players_bots(), "has_password": r.has_password(), "players": players,
+        },
+    })
 }
